@@ -26,7 +26,8 @@ for sid in ids:
         res = []
         for p in props:
             t = time.time()
-            r = subprocess.run([os.path.join(VERIF, 'check'), p], capture_output=True, text=True, cwd=VERIF)
+            r = subprocess.run([os.path.join(VERIF, 'check'), p], capture_output=True, text=True, cwd=VERIF,
+                               env=dict(os.environ, VERIF_EVIDENCE_DIR=os.path.join(VERIF, 'scratch', 'evidence_changed_tree')))
             viol = [l for l in r.stdout.splitlines() if l.startswith('VIOLATION')]
             und = [l for l in r.stdout.splitlines() if l.startswith('UNDECIDED')]
             refuted = [l.strip() for l in r.stdout.splitlines() if 'refuted obligation' in l]
